@@ -357,7 +357,10 @@ fn history(c: &DictCase, ctx: &mut CaseCtx, _allow_case_variants: bool) -> Resul
                 let flagged: BTreeSet<String> = s.diags[i].iter().filter(|d| is_spelling(d)).map(|d| diag_text(&s.texts[i], d)).collect();
                 for w in words {
                     let w = vocab(*w).to_string();
-                    let added = user.contains(&w) || file.get(&i).is_some_and(|f| f.contains(&w));
+                    // the word as written, or its lower-case form (the spell checker accepts the
+                    // capitalised and upper-case forms of a lower-case entry)
+                    let lw = w.to_lowercase();
+                    let added = user.contains(&w) || user.contains(&lw) || file.get(&i).is_some_and(|f| f.contains(&w) || f.contains(&lw));
                     if !added && !flagged.iter().any(|f| w.contains(f.as_str()) || f.contains(w.as_str())) {
                         fail!("step {step}: non-word {w:?} is not reported in document {i} although it was never added (flagged: {:?})", flagged);
                     }
